@@ -6,6 +6,8 @@ admissions, cancellations, request sets and station prices at every step. The cl
 statements of C11 are evaluated by Lean on the implementation's trace."""
 from __future__ import annotations
 
+from . import framework as fw  # noqa: E402
+
 import csv
 import logging
 import os
@@ -284,7 +286,7 @@ def worker(args) -> Dict[str, Any]:
             if o.get("mon"):
                 findings.append({"id": r["id"], "kind": "mon", "text": o["mon"][:8], "record": r})
     s = recs[0]
-    return {"n": len(recs), "steps": steps, "findings": findings[:20], "n_findings": len(findings), "shapes": sorted(shapes),
+    return {"n": len(recs), "steps": steps, "findings": fw.pick(findings, 20), "n_findings": len(findings), "shapes": sorted(shapes),
             "rows": sum(len(r["rows"]) + len(r["prices"]) for r in recs),
             "sample": {"meta": s["meta"], "timeout": s["timeout"], "departures": [x["req"]["departure"] for x in s["rows"]][:12],
                        "price_rows": s["prices"][:6], "first_steps": s["obs"][:3]}}
